@@ -759,10 +759,62 @@ def explore_step(base, kind, step, checker, out, stats):
     return w
 
 
+def clear_module_caches():
+    """Start of a case = a fresh archiver process: empty every
+    functools.lru_cache found in the treadmill.trace modules (none on the
+    unchanged tree, then this is a no-op).  Never called inside a case, and
+    the modules are never reloaded, so a cache lives across the cycles of one
+    case like in the long-running sproc."""
+    n = 0
+    for name, mod in list(sys.modules.items()):
+        if mod is None or not name.startswith('treadmill.trace'):
+            continue
+        for attr in list(vars(mod).values()):
+            clear = getattr(attr, 'cache_clear', None)
+            if callable(clear) and callable(attr):
+                clear()
+                n += 1
+    return n
+
+
+LATE_INSTANCE = 'proid.d#0000000003'       # shard 0003, scheduled between cycles
+
+
+def _second_cycle_part(base, case, sched, out, stats):
+    """Two archiver cycles of ONE process (same modules, same client object):
+    between them an instance is scheduled that already has a full batch of
+    old events; they must still be live after the second cycle."""
+    w2 = base.clone()
+    step = ('trace', case['batch'])
+    err = _complete(w2, step)
+    stats['runs'] += 1
+    if err:
+        return                      # reported by the main part already
+    w2.add_scheduled(LATE_INSTANCE)
+    for j in range(case['batch']):
+        w2.add_event('trace', LATE_INSTANCE, age_ts('W'), 'pending',
+                     'late%d' % j)
+    before2 = Before(w2, 'trace', list(sched) + [LATE_INSTANCE])
+    client = w2.arch
+    err = _complete(w2, step)
+    stats['runs'] += 1
+    if w2.arch is not client:
+        raise HarnessError('client object changed between cycles')
+    where = ('second cycle of the same archiver process, %s scheduled '
+             'between the cycles' % LATE_INSTANCE)
+    if err:
+        err['detail']['where'] = where
+        out.append(err)
+        return
+    stats['second_cycle_checks'] += 1
+    check_archive(w2, before2, where, out, stats)
+
+
 def run_case(case):
     """-> (violations, stats).  Deterministic function of the case."""
     out = []
     stats = collections.Counter()
+    stats['module_caches_cleared'] += clear_module_caches()
     base, kind, step, sched = build(case)
     fam = case['family']
     if fam == 'H':
@@ -794,6 +846,8 @@ def run_case(case):
         check_archive(late, before, 'second run one hour later', out, stats)
     CLOCK.reset()
     CLOCK.advance(L0)
+    if fam == 'T':
+        _second_cycle_part(base, case, sched, out, stats)
     # pruning of the history the archiver just wrote
     for mc in case.get('prune', ()):
         _prune_part(end, kind, mc, out, stats)
